@@ -122,6 +122,9 @@ def isinstance_(I, v, t):
                         "Hashable": "__hash__"}.get(short)
                 return bool(need and v.cls.lookup(need))
             return bool(tn & _ABC[short])
+        alias = {"GeneratorType": "generator", "CoroutineType": "coroutine", "FunctionType": "function", "NoneType": "NoneType"}
+        if short in alias:
+            return alias[short] in tn
         for full in (t.dotted, "np." + short, short):
             if full in tn:
                 return True
@@ -1229,7 +1232,10 @@ def make_builtins(I):
         v = a[0]
         if isinstance(v, Sym):
             raise EngineError("id() of symbolic scalar")
-        return ("$id", id(v)) if not isinstance(v, (int, str)) else ("$id", v)
+        if isinstance(v, (int, str)):
+            return ("$id", v)
+        I.w.ghost.setdefault("$ids", {})[id(v)] = v      # keeps the object alive, so the host id stays unique
+        return ("$id", id(v))
 
     @reg("hash")
     def _hash(I, a, k):
